@@ -12,8 +12,10 @@ EXPLANATION = (
     "Per is_inside implementation of Polygon (inherited by ConvexPolygon), Circle and Ellipse: IN-1 ... IN-4 as for "
     "C05 (input normalisation, batch axis preserved, dependence on own size/centre state, norm-based membership for "
     "curved shapes); IN-6 Polygon.is_inside pads (N,2) input with a zero column before rotating into the plane and "
-    "answers winding_number != 0 (hence independent of the vertex orientation). Correctness of the winding-number "
-    "computation on arbitrary polygons is numerical and not decided."
+    "answers winding_number != 0 (hence independent of the vertex orientation); IN-8 the per-edge term of that winding number, "
+    "evaluated symbolically over the vertex cycle (tie-break and indicator stores as function atoms), is antisymmetric in the two "
+    "end points of the edge, i.e. both end points are classified by the same function. Correctness of the winding-number "
+    "computation on arbitrary polygons beyond this symmetry is numerical and not decided."
 )
 
 
@@ -34,6 +36,20 @@ def run(index, tier="quick", seed=0) -> Result:
     for cn_ in ("Polygon", "ConvexPolygon", "ConvexSpheropolygon"):
         _frame3(res, index, cn_, ("is_inside",))
     _copy1(res, index, lambda f: f['top'] == 'is_inside' and f['cls'] in ('Polygon', 'ConvexPolygon', 'Circle', 'Ellipse'))
+    # IN-8: the winding number is odd under reversal of the vertex order (per-edge term antisymmetric in its end points)
+    from ..cyc import NotInFragment as _NIF
+    from ..windparity import winding_parity
+    fnw = index.cls("Polygon").lookup("is_inside")
+    try:
+        wp, wtxt = winding_parity(fnw.node, fnw.params[1] if len(fnw.params) > 1 else "points")
+        if wp == "odd":
+            res.ok("IN-8", "Polygon.is_inside:winding-parity", sample={"per_edge_term": wtxt[:300]})
+        else:
+            res.bad("IN-8", f"Polygon.is_inside:winding-parity:{wp}", f"{fnw.file}:{fnw.lineno}", f"the per-edge term of the winding number of Polygon.is_inside is "
+                    f"{wp} (not odd) under exchange of the two end points of an edge: start and end point are not classified by the same function "
+                    f"(term: {wtxt[:160]}), so the number of half turns is wrong for query points that share a coordinate with a vertex")
+    except _NIF as e_:
+        res.not_in_fragment.append(f"IN-8 Polygon.is_inside: {e_}")
     # IN-6
     fn = index.cls("Polygon").lookup("is_inside")
     pad = False
